@@ -22,6 +22,9 @@ package storage
 //@   let werr := call[util.LdWrite#0]
 //@   call[store.ShouldPut#0] assert options [C04]: ref(arg0) == ref(sc.idx) && arg1 == keyCid && arg2 == sc.opts.MaxIndexCidSize && arg3 == sc.opts.StoreIdentityCIDs && arg4 == sc.opts.BlockstoreAllowDuplicatePuts && arg5 == sc.opts.BlockstoreUseWholeCIDs
 //@   call[util.LdWrite#0] assert section [C01,C05]: ref(arg0) == ref(w) && len(arg1) == 2 && bytesval(arg1[0]) == cidbytes(keyCid) && ref(arg1[1]) == ref(data)
+//@   call[store.ShouldPut#0] assert decided_under_write_lock [C08]: held(sc.mu) == 2
+//@   call[util.LdWrite#0] assert written_under_write_lock [C08]: held(sc.mu) == 2
+//@   call[InsertionIndex.InsertNoReplace#0] assert indexed_under_write_lock [C08]: held(sc.mu) == 2
 //@   call[util.LdWrite#0] assert writer_choice [C01,C05]: ite(sc.dataWriter != nil, ref(w) == ref(sc.dataWriter), ref(w) == ref(sc.writer))
 //@   call[InsertionIndex.InsertNoReplace#0] assert record [C01,C03,C05]: ref(arg0) == ref(sc.idx) && arg1 == keyCid && arg2 == wrap_u64(old(pend(sc)) - wbase(w))
 //@   call[InsertionIndex.InsertNoReplace#0] assert after_write [C06,C16]: werr == nil
